@@ -767,3 +767,97 @@ Example live_example :
   | None => false
   end = true.
 Proof. vm_compute. reflexivity. Qed.
+
+(* ---------------------------------------------------------------------------------------- *)
+(* the batcher comes to rest by itself: running its own steps (here: in the priority order of
+   [candidates]; by [internal_decreases] ANY order stops) ends in a state with no enabled internal
+   event, which by [no_wedge] is at rest or blocked on a live stalled subscriber *)
+
+Lemma candidates_complete vr iv s e s' :
+  internal e = true -> step vr iv s e = Some s' -> In e (candidates s).
+Proof.
+  intros Hint Hs. unfold candidates.
+  assert (Hsub : forall i g, with_sub s i g = Some s' -> In i (seq 0 (length (subs s)))).
+  { intros i g Hw. apply with_sub_inv in Hw as (b & _ & Hn & _). apply in_seq. split; [lia|].
+    cbn. apply nth_error_Some. congruence. }
+  destruct e; try discriminate Hint; unfold step in Hs; rewrite !in_app_iff.
+  - (* Pop *) do 5 right.
+    destruct (proc s); try discriminate. destruct (loop_dead s); try discriminate.
+    unfold plookup in Hs.
+    destruct (find (fun e => (fst e =? k)%Z) (pending s)) as [e|] eqn:Hf; try discriminate.
+    apply find_some in Hf as [Hin Hk]. apply Z.eqb_eq in Hk. subst k.
+    apply in_map_iff. exists e; auto.
+  - do 4 right; left. cbn; auto.
+  - left. cbn; auto.
+  - left. cbn; auto.
+  - left. cbn; auto.
+  - left. cbn; auto.
+  - right; left. apply in_flat_map. exists i. split; [eapply Hsub; eauto|]. cbn; auto.
+  - right; left. apply in_flat_map. exists i. split; [eapply Hsub; eauto|]. cbn; auto.
+  - right; left. apply in_flat_map. exists i. split; [eapply Hsub; eauto|]. cbn; auto.
+  - right; left. apply in_flat_map. exists i. split; [eapply Hsub; eauto|]. cbn; auto.
+  - do 3 right; left. destruct (lock s); try discriminate. apply in_map. eapply Hsub; eauto.
+  - right; left. apply in_flat_map. exists i. split; [eapply Hsub; eauto|]. cbn; auto 6.
+  - do 2 right; left. destruct (lock s); try discriminate.
+    destruct (nth_error (pend_subs s) j) eqn:Hn; try discriminate.
+    apply in_map. apply in_seq. split; [lia|]. cbn. apply nth_error_Some. congruence.
+  - do 4 right; left. cbn; auto.
+  - do 4 right; left. cbn; auto.
+  - do 4 right; left. cbn; auto.
+Qed.
+
+Lemma candidates_internal s e : In e (candidates s) -> internal e = true.
+Proof.
+  unfold candidates. rewrite !in_app_iff. intros H.
+  repeat match goal with H : _ \/ _ |- _ => destruct H as [H|H] end.
+  - cbn in H. repeat (destruct H as [<-|H]; [reflexivity|]). destruct H.
+  - apply in_flat_map in H as (i & _ & H). cbn in H.
+    repeat (destruct H as [<-|H]; [reflexivity|]). destruct H.
+  - apply in_map_iff in H as (i & <- & _). reflexivity.
+  - apply in_map_iff in H as (i & <- & _). reflexivity.
+  - cbn in H. repeat (destruct H as [<-|H]; [reflexivity|]). destruct H.
+  - apply in_map_iff in H as (i & <- & _). reflexivity.
+Qed.
+
+Lemma first_enabled_none_stuck vr iv s : first_enabled vr iv s = None -> stuck vr iv s.
+Proof.
+  unfold first_enabled, stuck. intros Hf e Hint.
+  destruct (step vr iv s e) as [s'|] eqn:Hs; auto. exfalso.
+  pose proof (find_none _ _ Hf e (candidates_complete _ _ _ _ _ Hint Hs)) as H.
+  unfold enabledb in H. rewrite Hs in H. discriminate.
+Qed.
+
+Lemma first_enabled_some vr iv s e :
+  first_enabled vr iv s = Some e -> internal e = true /\ exists s', step vr iv s e = Some s'.
+Proof.
+  unfold first_enabled. intros Hf. apply find_some in Hf as [Hin Hen]. split.
+  - eapply candidates_internal; eauto.
+  - unfold enabledb in Hen. destruct (step vr iv s e); [eauto|discriminate].
+Qed.
+
+Lemma quiesce_fuel_spec vr iv : forall fuel s,
+  reachable vr iv s -> (measure s <= fuel)%nat ->
+  reachable vr iv (quiesce_fuel fuel vr iv s) /\ stuck vr iv (quiesce_fuel fuel vr iv s).
+Proof.
+  induction fuel as [|f IH]; intros s HR Hm; cbn [quiesce_fuel].
+  - split; auto. apply first_enabled_none_stuck.
+    destruct (first_enabled vr iv s) as [e|] eqn:Hf; auto. exfalso.
+    apply first_enabled_some in Hf as [Hint [s' Hs]].
+    pose proof (internal_decreases _ _ _ _ _ Hint Hs). lia.
+  - destruct (first_enabled vr iv s) as [e|] eqn:Hf.
+    + destruct (first_enabled_some _ _ _ _ Hf) as [Hint [s' Hs]]. rewrite Hs.
+      pose proof (internal_decreases _ _ _ _ _ Hint Hs). apply IH; [econstructor; eauto|lia].
+    + split; auto. apply first_enabled_none_stuck; auto.
+Qed.
+
+(* Current code: from EVERY reachable state, the batcher's own steps lead — with no further help
+   from callers, clock, consumers or contexts — to a state that is at rest (all calls returned) or
+   held up by a live subscriber that does not read. *)
+Theorem comes_to_rest : forall iv s, reachable Fixed iv s ->
+  reachable Fixed iv (quiesce Fixed iv s) /\
+  (at_rest (quiesce Fixed iv s) \/ blocked_on_live (quiesce Fixed iv s)).
+Proof.
+  intros iv s HR. unfold quiesce.
+  destruct (quiesce_fuel_spec Fixed iv (measure s) s HR (le_n _)) as [H1 H2].
+  split; auto. apply (no_wedge iv); auto.
+Qed.
